@@ -1,7 +1,7 @@
 (* C07 - Cancellation never hangs the injector nor yields a silent partial result. *)
 From Coq Require Import List Arith Bool.
 Import ListNotations.
-Require Import Sem2 Safe Live Fault Term Finite.
+Require Import Sem2 Safe Live Fault Term Finite GenU GenSound.
 
 (* The full statement is refuted on the model of the code as it is, by two mechanisms (known findings KF-C07-1, KF-C07-2).
    Program: A (node 0) async in a goroutine, B(a) (node 1) on the main thread; the injector has no error result, so the
@@ -64,3 +64,23 @@ Print Assumptions C07_with_error_result_complete.
 Theorem C07_executions_finite : forall p ls s, run p (init p) ls = Some s -> length (filter noncancel ls) <= bound p.
 Proof. exact runs_are_finite. Qed.
 Print Assumptions C07_executions_finite.
+
+(* For ALL accepted declarations whose injector has an error result (some needed provider can fail): whatever is cancelled
+   and whatever fails, when nothing more can happen the injector has returned; and if it returned a nil error, every thread
+   finished normally and every provider of the injector returned - in particular the provider of the requested type, whose
+   stored result is then the declared value (C02_result_is_declared_value). *)
+Theorem C07_all_declarations : forall d g, unew_graph d = Gen.OK g -> reterr_of g = true ->
+  exists st, Threads.build (unp g) (upool g) (udeps g) (uisasync g) (uargs g) = Some st /\
+  forall ls s, run (uprog g st) (init (uprog g st)) ls = Some s ->
+    ((forall l, l <> LCancel -> step (uprog g st) s l = None) -> exists e, nth_error (s_thr s) 0 = Some (TDone e)) /\
+    (nth_error (s_thr s) 0 = Some (TDone None) ->
+       (forall t x, nth_error (s_thr s) t = Some x -> x = TDone None) /\ (forall t j it, item_at (uprog g st) t j = Some it -> exited s (it_node it))).
+Proof.
+  intros d g H Hr. destruct (gen_sound d g H) as (st & B & W). exists st. split; [exact B|].
+  assert (Hlen : 0 < length (p_threads (uprog g st))) by (unfold uprog, Assembly.prog_of, Sched2.P; simpl; apply Nat.lt_0_succ).
+  assert (Hre : p_reterr (uprog g st) = true) by (unfold uprog, Assembly.prog_of, Sched2.P; simpl; exact Hr).
+  intros ls s R. split.
+  - intros Hmax. apply (main_returns _ _ ls s W Hlen Hre R Hmax).
+  - intros H0. apply (nil_error_means_complete _ _ ls s W Hlen Hre R H0).
+Qed.
+Print Assumptions C07_all_declarations.
